@@ -235,13 +235,16 @@ func pairsCovered(rows [][]int, k, n int) bool {
 // In the product shapes the input varies fastest, so the tuples that share an
 // argument vector are adjacent (the runaway rule of exec.go relies on that).
 type tupleSpace struct {
-	k, n  int
-	nbase int
-	shape string
-	rows  [][]int
-	nA    int64 // size of the base product
-	nB    int64 // mixed: size of the single-option region
-	count int64
+	// inputs: shape "inputs": the values of position 0 (the input) are these pool indices,
+	// the arguments range over the whole pool
+	inputs []int
+	k, n   int
+	nbase  int
+	shape  string
+	rows   [][]int
+	nA     int64 // size of the base product
+	nB     int64 // mixed: size of the single-option region
+	count  int64
 }
 
 func ipow(b int64, e int) int64 {
@@ -289,8 +292,24 @@ func digits(i int64, base, k int) []int {
 	return t
 }
 
+// newInputTupleSpace: input from the given pool indices x full product of the arguments.
+func newInputTupleSpace(arity, n, nbase int, inputs []int) *tupleSpace {
+	ts := &tupleSpace{k: arity + 1, n: n, nbase: nbase, shape: "inputs", inputs: inputs}
+	ts.count = int64(len(inputs)) * ipow(int64(n), arity)
+	return ts
+}
+
 func (ts *tupleSpace) at(i int64) []int {
 	switch ts.shape {
+	case "inputs":
+		t := make([]int, ts.k)
+		t[0] = ts.inputs[int(i%int64(len(ts.inputs)))]
+		i /= int64(len(ts.inputs))
+		for c := ts.k - 1; c >= 1; c-- {
+			t[c] = int(i % int64(ts.n))
+			i /= int64(ts.n)
+		}
+		return t
 	case "covering":
 		return ts.rows[i]
 	case "full":
